@@ -152,15 +152,15 @@ def directed(name, quick):
 
 
 SOURCES = {
-    'C01': ('flat', 'nest', 'chan', 'deep', 'unroll2', 'sim'),
-    'C02': ('flat', 'nest', 'chan', 'deep', 'sim'),
-    'C04': ('flat', 'nest', 'sim'),
+    'C01': ('flat', 'nest', 'chan', 'deep', 'unroll2', 'sim', 'repotests', 'library'),
+    'C02': ('flat', 'nest', 'chan', 'deep', 'sim', 'repotests', 'library'),
+    'C04': ('flat', 'nest', 'sim', 'repotests'),
     'C05': ('kinds', 'copyapplied', 'nest', 'sim'),
-    'C06': ('unroll', 'unroll2', 'nest', 'sim'),
+    'C06': ('unroll', 'unroll2', 'nest', 'sim', 'library'),
     'C07': ('acq', 'sim'),
-    'C11': ('flatten', 'flatdir', 'sim'),
+    'C11': ('flatten', 'flatdir', 'sim', 'library'),
     'C03': ('hist', 'plothist', 'sim'),
-    'C08': ('kinds', 'export', 'sim'),
+    'C08': ('kinds', 'export', 'sim', 'library'),
     'C18': ('drawkinds', 'drawhist', 'drawnest'),
     'C15': ('kinds', 'export', 'qldir'),
 }
@@ -295,6 +295,16 @@ M_Init == /\\ heap = DoNewCircuit(DoAddOp(DoNewCircuit(<<>>, "n1", NoLink, <<"fi
       reps=[('fixed', 1), ('fixed', 2)], acts=('NewCircuit', 'AddOp', 'AddSub', 'Apply', 'Obs'), linktypes=(), max_circs=2, max_objs=9,
       max_steps=8, obskinds=('draw',), simulate='num=%d' % (300 if quick else 5000), depth=9, min_emit=4, one_in=2, timeout=120, cap=800 if quick else 10000,
       keep=lambda p: any(s['a'] == 'Obs' for s in p) and any(s['a'] == 'AddSub' for s in p))
+    # (4) executions of code that was not written for verification, recorded through hooks on the builder API:
+    #     the repository's own test files (unchanged), and the library constructors over an input grid observed as constructed /
+    #     unrolled / flattened
+    for hn, args in (('repotests', ['tests']), ('library', ['library', 3 if quick else 4, 4 if quick else 6])):
+        if hn in want:
+            pout = os.path.join(scratch(), hn + '_traces.json')
+            run_impl('drv_hooks.py', [args[0], pout] + args[1:], timeout=6000)
+            d = json.load(open(pout))
+            out.append({'name': hn, 'programs': [], 'traces': d['traces'], 'labels': [m.get('file') or m.get('input') for m in d['meta'] if m.get('events')],
+                        'generated': len(d['traces']), 'tlc_states': 0, 'tlc_generated': 0, 'mode': 'recorded through builder-API hooks'})
     # (3) simulation: long programs over the full alphabet, overrides, registry durations, copies, unrolling
     full = waits(Q3, chans=('ALL', 'MICROWAVE', 'FLUX'), durs=(0, 2, 6), reg=True) + gates(Q3) + meas(Q3) + two(Q3)
     g('sim', full, reps=[('fixed', 1), ('fixed', 2), ('fixed', 3), ('reg', 'r1')], configs=(gen.DEFAULT_CFG, CFG_A, CFG_B),
@@ -445,6 +455,10 @@ def run(pid, tier):
         for p in s['programs']:
             programs.append(p)
     traces = execute(programs)
+    for s in sources:                                  # pre-recorded traces (hooks): the "program" is the label of what was run
+        for lab, t in zip(s.get('labels', []), s.get('traces', [])):
+            programs.append([{'a': 'Recorded', 'c': '', 'id': '', 's': '', 'm': {}, 'link': {'k': 'none'}, 'rep': ['fixed', 1], 'key': '', 'val': 0, 'what': str(lab)}])
+            traces.append(t)
     bad = [i for i, t in enumerate(traces) if offgrid(t)]
     for i in bad:
         v.fail('C01.grid', {'trace': i, 'what': 'a reported time is not a multiple of 1/4 although all durations are'}, replay={'program': programs[i]})
@@ -475,7 +489,7 @@ def run(pid, tier):
                 'non-trivial = ' + RULES.get(pid, 'any'),
         'samples': [compact(programs[0]), compact(programs[len(programs) // 2]), compact(programs[-1])],
         'events_by_kind': events_by_kind(traces), 'relations_observed': relations_observed(traces),
-        'sources': [{k: s[k] for k in s if k != 'programs'} | {'used': len(s['programs'])} for s in sources],
+        'sources': [{k: s[k] for k in s if k not in ('programs', 'traces', 'labels')} | {'used': len(s['programs']) + len(s.get('traces', []))} for s in sources],
         'clause_failures_all_properties': per_clause, 'twin_runs': twin_stats,
         'mc': {'module': 'MCCircuit', 'distinct_states': mc.distinct, 'generated': mc.generated,
                'invariants': ['WF', 'SnapOK'], 'action_properties': ['UnrollProps', 'NTimesT', 'Independence']},
@@ -526,6 +540,10 @@ def signature(f, ev, trace, prog):
     cl = f['clause']
     if f.get('memo') or cl.startswith('C03.memo'):
         return 'stale-memo' if memo_trigger(trace, f['l'] - 1) else None
+    if '.shift_moved' in cl:
+        return 'coordinate-shift-moved'
+    if cl.startswith('C11.library.') and cl.endswith('.relinked'):
+        return 'flatten-relinked-block-reference'
     if cl == 'C15.image.subprograms_first':
         return 'openql-subprograms-first'
     if cl == 'C15.duplicate_kernel':
